@@ -142,6 +142,11 @@ class Buffer:
     def project_buffer_capacity(self, obs, b):
         numerator = self.hot[b].total_capacity - (self.hot[b].current_capacity)
         numerator += obs.total_data_size
+        # Space still owed to observations that are being ingested
+        numerator += sum(
+            o.ingest_data_rate * o.duration - o.total_data_size
+            for o in self.admitted_observations
+        )
         return numerator / self.hot[b].total_capacity < self.threshold
 
     def check_buffer_capacity(self, observation):
